@@ -18,7 +18,7 @@ from .common import ABSENT, G, U, Check, Cond, Obj, Opaque, Session, StructStr, 
 from .scores import split_tasks
 
 QUICK_CONTEXTS = [("ROUND_UP", 28), ("ROUND_DOWN", 28), ("ROUND_HALF_EVEN", 60)]
-THOROUGH_CONTEXTS = [(r, p) for r in ("ROUND_UP", "ROUND_DOWN", "ROUND_CEILING", "ROUND_FLOOR", "ROUND_HALF_UP", "ROUND_HALF_DOWN", "ROUND_HALF_EVEN", "ROUND_05UP") for p in (28, 29, 35, 50, 200)]
+THOROUGH_CONTEXTS = [(r, p) for r in ("ROUND_UP", "ROUND_DOWN", "ROUND_CEILING", "ROUND_FLOOR", "ROUND_HALF_UP", "ROUND_HALF_DOWN", "ROUND_HALF_EVEN", "ROUND_05UP") for p in (28, 50)] + [("ROUND_HALF_EVEN", 200)]
 ALLOWED_PRINT_MODULES = {"cvss.interactive", "cvss.cvss_calculator"}
 
 
